@@ -11,7 +11,7 @@ ENGINES = [
     {"name": "E6", "path": "bppverif/e6.py", "serves_properties": ["C15"], "kind_free_text": "cache-invalidation completeness: interprocedural summaries of dependency writes and invalidations over the CFG"},
     {"name": "E8", "path": "bppverif/c18.py", "serves_properties": ["C18", "C09"], "kind_free_text": "kind / polarity typing of arguments (sampler conventions, strict vs inclusive flags)"},
     {"name": "E4", "path": "bppverif/c16.py", "serves_properties": ["C16", "C12", "C03"], "kind_free_text": "typestate over the CFG: npos discipline, acquire/release pairing, fresh-object retargeting"},
-    {"name": "E7", "path": "bppverif/c11.py", "serves_properties": ["C11"], "kind_free_text": "formula agreement of sibling members by computer algebra (sympy from the tooling venv; re-execs under python3-vt)"},
+    {"name": "E7", "path": "bppverif/c11.py", "serves_properties": ["C11", "C12"], "kind_free_text": "formula agreement of sibling members by computer algebra (sympy from the tooling venv; re-execs under python3-vt)"},
     {"name": "E5", "path": "bppverif/c02.py", "serves_properties": ["C02"], "kind_free_text": "sibling / table agreement: validation loop vs apply loop, copy vs share functions"},
 ]
 
@@ -57,10 +57,11 @@ CLAIMED["C03"] = dict(
 
 CLAIMED["C15"] = dict(
     engine="E6+E1",
-    technique="static analysis: interprocedural cache-invalidation completeness (dependency writes vs reachable topologyHasChanged_() per public entry point), override/flag-source checks, call-graph reachability from rootAt",
+    technique="static analysis: interprocedural cache-invalidation completeness (dependency writes vs reachable topologyHasChanged_() per public entry point), override/flag-source checks, call-graph reachability from rootAt, orientation agreement between the edge table and the node table written by one function (convention read from the link helpers), who-reads rule on the id allocators",
     level=("Static rules decide, for every history: each public entry point of the tree/DAG containers and their observers that writes a dependency of the cached validity predicate reaches the virtual "
            "invalidator afterwards; the derived invalidator really overrides the base virtual and clears the flag; the flag only becomes true from isTree()/isDA(); re-rooting cannot erase edges, notify "
-           "deletions or allocate edge ids on the graph itself. This is the 'regardless of earlier queries' clause, which no finite test history settles."),
+           "deletions or allocate edge ids on the graph itself; the edge reversal of re-rooting records the edge with the same orientation in both tables; the id allocators are never used as element counts. "
+           "This is the 'regardless of earlier queries' clause, which no finite test history settles."),
     note=TB + "Not decided: father/sons/path/MRCA definitions, correctness of isTree()/isDA(), writes invalidated on some paths only (reported UNKNOWN), DAG rootedness cache.")
 
 CLAIMED["C13"] = dict(
@@ -72,12 +73,13 @@ CLAIMED["C13"] = dict(
     note=TB + "Not decided: numerical equality of the three algorithms, agreement with path enumeration, derivative values, stochasticity/stationarity of built-in matrices, flat-array index ranges (E2 not applied here).")
 
 CLAIMED["C12"] = dict(
-    engine="E4+E5+E1",
-    technique="static analysis: acquire/release typestate on the CFG (enable-flag pairing, probe->restore with stable-fact path restriction), entry-point sibling agreement, guard dominance for delegation, table agreement between the name->slot map and slot writes",
+    engine="E4+E5+E1+E7",
+    technique="static analysis: acquire/release typestate on the CFG (enable-flag pairing, probe->restore with stable-fact path restriction), entry-point sibling agreement, guard dominance for delegation, table agreement between the name->slot map and slot writes; reaching-definition walk naming the point of every probe value + computer-algebra identity check of each difference formula on generic polynomials (sympy; re-execs under python3-vt)",
     level=("Static rules decide the transparency clauses for every input and history: all six update entry points forward then update with what was set; every variable shifted for a probe is restored from the "
            "unmodified argument on every path to the normal exit; analytic derivatives switched off for probing are switched back on at every normal exit; the cached derivative is served only for selected "
-           "variables with computing on, else delegated; the selection table is rebuilt from scratch; constraint-hit handlers flip the probing side or use one-sided formulas; slots are indexed by selection position."),
-    note=TB + "Not decided: exactness on polynomials, convergence order, values of cross derivatives (intermediate probes with other variables still shifted), exceptional exits.")
+           "variables with computing on, else delegated; the selection table is rebuilt from scratch; constraint-hit handlers flip the probing side or use one-sided formulas; slots are indexed by selection position; every difference formula stored into a derivative slot, "
+           "read with the points at which its values were taken, is exact for all polynomials of degree <= max(order, points-1) identically in the step sizes (mixed derivative: total degree 2)."),
+    note=TB + "Not decided: convergence order beyond the exactness degree, rounding, that a retry loop that gives up leaves its snapshot at 0 (modelling assumption of D7), exceptional exits.")
 
 CLAIMED["C09"] = dict(
     engine="E6+E1+E8",
@@ -96,17 +98,19 @@ CLAIMED["C18"] = dict(
 
 CLAIMED["C16"] = dict(
     engine="E4+E1",
-    technique="static analysis (necessary conditions): npos typestate on std::string search results with guard dominance, unsigned 'size()-c' underflow rule, feasible state-preserving-cycle search and zero-stride idiom on every loop, interprocedural division-by-parameter rule, throw-type typing",
+    technique="static analysis (necessary conditions): npos typestate on std::string search results with guard dominance, unsigned 'size()-c' underflow rule, feasible state-preserving-cycle search and zero-stride idiom on every loop, interprocedural division-by-parameter rule, throw-type typing, look-ahead re-test rule on counted loops, emptiness typestate on tokenizer token lists and on local containers (path search avoiding every filling statement)",
     level=("Necessary conditions of 'never crashes or hangs', decided for every input over the 13 anchored units: search results on caller-supplied text are tested against npos before positional use; "
-           "no 'size() - c' bound/index on a possibly empty container without a guard; none of the loops can cycle without changing state and none advances only by the size of a possibly empty caller string; "
+           "no 'size() - c' bound/index on a possibly empty container without a guard (local containers: no path from the empty declaration to the access without a filling statement or a guard); a loop counter advanced a second time "
+           "inside the body is re-tested before it indexes; the first token of a tokenizer is read only after a test that one exists; none of the loops can cycle without changing state and none advances only by the size of a possibly empty caller string; "
            "integral divisions by a parameter are guarded; only library exceptions are thrown explicitly. Passing these rules does NOT prove absence of crashes (that remains the fuzzers' job)."),
-    note=TB + "Not decided: invalid iterators inside std algorithms, signed overflow, allocation size, index ranges that need value reasoning (e.g. continuation lines in getAttributesMap), exceptions escaping from std members.")
+    note=TB + "Not decided: invalid iterators inside std algorithms, signed overflow, allocation size, index ranges that need value reasoning, exceptions escaping from std members.")
 
 CLAIMED["C14"] = dict(
     engine="E1+E5+E4",
-    technique="static analysis: guard dominance for inserting reads of the node/edge tables, mirrored-call sibling rule (link vs unlink under '!directed_'), must-pass notification after erase (through private helpers), co-update of map groups, assign-reset and re-subscription order, inverse-map write agreement",
+    technique="static analysis: guard dominance for inserting reads of the node/edge tables, mirrored-call sibling rule (link vs unlink under '!directed_'), must-pass notification after erase (through private helpers), co-update of map groups, assign-reset and re-subscription order, inverse-map write agreement, refusal-before-write ordering with effect summaries that follow iterators into the tables, discarded-insert-result rule on the relation maps",
     level=("Static rules decide for every history: the node/edge tables never gain phantom entries through an unguarded operator[] read; unlink mirrors link for undirected graphs; every deletion reaches the observer "
-           "notification; an object forgotten by an observer is forgotten in every map; observer assignment clears, unsubscribes and re-subscribes; paired inverse maps are written consistently (copy constructors included)."),
+           "notification; an object forgotten by an observer is forgotten in every map; observer assignment clears, unsubscribes and re-subscribes; paired inverse maps are written consistently (copy constructors included); no member refuses after it has changed the tables (own throws, precondition helpers, and the mirrored test-then-erase helper for a node's relation with itself); "
+           "a relation recorded with a discarded insert() result is preceded by an absence test (refuted on the pinned tree: known finding, parallel edges)."),
     note=TB + "Not decided: agreement with a reference multigraph over histories, iterator contents vs list queries, unchecked find() results on absent ids in protected members (undefined behaviour tolerated by libstdc++).")
 
 CLAIMED["C11"] = dict(
